@@ -59,15 +59,17 @@ func (s *Stream) Recv(msg any) error {
 			buf = slices.Grow(buf, need-cap(buf))
 		}
 		n, err := s.inner.Read(buf[read:need])
-		if err != nil {
-			return err
-		}
 		if n == 0 {
+			if err != nil {
+				return err
+			}
 			if read == 0 {
 				return io.ErrUnexpectedEOF
 			}
 			return io.EOF
 		}
+		// An io.Reader may return n > 0 bytes together with an error (typically io.EOF):
+		// the bytes are processed before the error is considered.
 		read += n
 		need = computeNeededBytes(buf[:read])
 		if s.max > 0 && need > s.max {
@@ -75,6 +77,9 @@ func (s *Stream) Recv(msg any) error {
 		}
 		if read >= need {
 			return UnmarshalTTLV(buf[:need], msg)
+		}
+		if err != nil {
+			return err
 		}
 	}
 }
